@@ -187,6 +187,17 @@ def termsOkL (host : AKind) : List DNode → Bool
   | d :: ds => termsOk host d && termsOkL host ds
 end
 
+/-! ## `plain`: containers that keep what they are handed -/
+
+mutual
+/-- every pushed node is a `Parent` that keeps its children, or a leaf without children; no terms -/
+def plain : DNode → Bool
+  | .mk _ _ _ kind _ cs => (kind == .parent || (kind == .leaf && cs.isEmpty)) && plainL cs
+def plainL : List DNode → Bool
+  | [] => true
+  | d :: ds => plain d && plainL ds
+end
+
 /-! ## paths of `Gen/VisitPaths.lean` -/
 
 def exitOfTag (s : String) : Option Exit :=
